@@ -448,6 +448,18 @@ class Exec:
 
   def report_restore(self, label, exit_kind, diff, n):
     by_mgr = collections.OrderedDict()
+    local_de = [d for d in diff if d[0] in ('de.getter', 'de.oneof')]
+    fresh_de = [d for d in diff if d[0].startswith('fresh-thread:de.')]
+    if local_de and not fresh_de and self.had_thread_de and self.de_expects_process_fn():
+      # The process-wide function was restored (other threads see the same as
+      # before) but this thread does not see it: it left a per-thread block
+      # earlier and ignores process-wide functions since.
+      self.report('process-scope-ignored', 'dynamic_evaluate@after-thread-scope',
+                  f'`with {n["m"]}({n["a"]})` left by {exit_kind}: ' +
+                  '; '.join(f'{k}: before {b!r}, after {a!r}' for k, b, a in local_de))
+      self.deaf_reported = True
+      self.muted.add('de.process-scope-effective')
+      diff = [d for d in diff if d not in local_de]
     for k, b, a in diff:
       name = k[len('fresh-thread:'):] if k.startswith('fresh-thread:') else k
       o = S.OBS_BY_NAME.get(name)
